@@ -14,7 +14,7 @@ PROPS = {
                        "moves next: an interleaving is a shrinkable, replayable value. (S) Stress mode: 1-3 real gateway processes on one storage, 2-10 "
                        "parallel clients with 1-6 operations each, no hooks, monotonic clock stamps. Oracle for both: every 200 read must carry the body, "
                        "length, ETag, metadata and content type of one single write (else: torn read), and the history with its real-time order must be "
-                       "linearizable for a register holding 'absent' or a write (refused writes / deletes may or may not have taken effect). A third of the scheduled cases stall one operation after k of its steps until the others are through; uploads declare a CRC32 and most reads ask for it (the checksum must belong to the same write); one write is the empty object. A quarter of the cases run with a versions store and bucket versioning enabled; writers are stalled as well as readers."),
+                       "linearizable for a register holding 'absent' or a write (refused writes / deletes may or may not have taken effect). A third of the scheduled cases stall one operation after k of its steps until the others are through; uploads declare a CRC32 and most reads ask for it (the checksum must belong to the same write); one write is the empty object. A quarter of the cases run with a versions store and bucket versioning enabled; writers are stalled as well as readers. Reads also come as server-side copies of the key to a key of the operation's own (what arrives there is what the copy read: it must be body, ETag and metadata of one write)."),
         "level_note": "interleavings are explored at hook granularity (steps between two hooks are atomic for the explorer); the stress mode does not depend on hook placement. Versioned buckets and the sidecar metadata store are not part of this check. Exploration only.",
         "rule": ("case = (temp-file strategy, gateways, initial state, operations, schedule). Non-trivial: at least two operations were in flight together "
                  "(A) / a write overlapped another client's operation (S); distinct by the full case including the schedule."),
@@ -65,7 +65,7 @@ PROPS = {
                        "proxy process. Every request goes to E and to P; the two answers must agree in status, error code, every response header "
                        "except Date / Last-Modified / Server / request ids, and body (XML compared canonically with LastModified / Initiated / "
                        "CreationDate / error Message blanked, empty elements dropped, upload ids mapped to placeholders); a proxy process that dies is a "
-                       "violation. At the end listing, uploads, ACL and policy of both sides must agree. Also: Expires values that are no dates, ListMultipartUploads with either marker alone or both, CreateBucket for the bucket that exists (owner and non-owner)."),
+                       "violation. At the end listing, uploads, ACL and policy of both sides must agree. Also: Expires values that are no dates, ListMultipartUploads with either marker alone or both, CreateBucket for the bucket that exists (owner and non-owner). Bucket names take the forms client libraries treat specially (dots, the suffixes --x-s3, --ol-s3, -s3alias, the prefix xn--)."),
         "level_note": ("Half of the cases create the bucket with ACLs enabled (PutBucketAcl is then really carried out); open finding C18-acl-does-not-fit-the-reserved-tag ends a case at the diverging PutBucketAcl. Two open findings narrow the oracle: bucket tagging is not implemented by the proxy backend (operations excluded by construction, "
                        "strict replay kept), and the Owner of listed objects is the backend account (difference tolerated only for exactly that element). "
                        "An upload the endpoint refuses before reading the body may race with the proxy's sdk client (reset while writing => 500): such a "
@@ -150,7 +150,7 @@ PROPS = {
                        "markers (enabled: every write pushes a fresh distinct id; otherwise the null version is replaced). After every step GET of "
                        "every key equals the top of its stack (404 for a marker / nothing), at the end every live version is retrievable byte-"
                        "exact with its own metadata under its id, and the complete version listing equals the model: same (key, id) set, versions "
-                       "vs markers, exactly the top flagged latest, no duplicates, pagination terminates. Every version check is repeated with HEAD by version id; a copy of a key onto itself with replaced metadata is a write like any other (enabled and suspended). Also: refused uploads (the versions must stay as they were), copies by version id, delimiters in the version listing."),
+                       "vs markers, exactly the top flagged latest, no duplicates, pagination terminates. Every version check is repeated with HEAD by version id; a copy of a key onto itself with replaced metadata is a write like any other (enabled and suspended). Also: refused uploads (the versions must stay as they were), copies by version id, delimiters in the version listing. Every write carries two user metadata entries, one under a name that depends on the write: the whole set is compared per version (an entry inherited from another version shows)."),
         "level_note": "a delete of a key that never existed may or may not create a marker (both accepted); directory-marker keys are excluded by the statement. In-process engine. Exploration only.",
         "rule": ("case = (sidecar, pre ops, ops). Non-trivial: the program deletes the current version / marker while older entries exist, or a null version "
                  "predates enabling; distinct by the full case."),
@@ -170,7 +170,7 @@ PROPS = {
                        "number. Checks: complete succeeds only if the selection is valid (existing, strictly ascending, current ETags, all but the "
                        "last >= 5 MiB); then GET = concatenation (streamed MD5), ETag = md5(md5s)-N, metadata of the initiation; otherwise the "
                        "key reads exactly as before; part ETag = MD5 of the exact source interval for copies; listings equal the model; parts / "
-                       "uploads never show as objects; closed uploads answer NoSuchUpload; open uploads keep exactly their parts. Scripted uploads number their parts 1..5 or with mixed digit counts (2, 10, 11, 100 ...), list their parts in pages from markers, and ListMultipartUploads is followed in pages of max-uploads through both next markers. CompleteMultipartUpload may state x-amz-mp-object-size (right, zero, wrong, negative)."),
+                       "uploads never show as objects; closed uploads answer NoSuchUpload; open uploads keep exactly their parts. Scripted uploads number their parts 1..5 or with mixed digit counts (2, 10, 11, 100 ...), list their parts in pages from markers, and ListMultipartUploads is followed in pages of max-uploads through both next markers. CompleteMultipartUpload may state x-amz-mp-object-size (right, zero, wrong, negative). Requests under an upload id that names no upload of the key (empty, well-formed but never handed out, the id of an upload on another key) - part, part copy, ListParts, completion, abort - must be refused and change nothing."),
         "level_note": "a valid completion that is refused is not judged (the statement is 'only if'); open-ended copy ranges are accepted when honoured exactly. In-process engine, xattr or sidecar, both temp-file strategies. Exploration only.",
         "rule": ("case = (config, ops). Non-trivial: an upload with >= 2 parts is completed, or a completion uses a re-uploaded part, or two uploads are open "
                  "for the same key; distinct by the full case."),
@@ -208,7 +208,7 @@ PROPS = {
                        "x-amz-content-sha256 signed consistently, wrong checksum header / trailer, payload bit flip after signing, chunk / trailer "
                        "signature damaged, decoded length larger / smaller, chunk size larger, body cut short, stream truncated at a chunk boundary, "
                        "bytes after the final chunk) or none. Corrupted => not 2xx and GET / ListParts show exactly the prior state; control => "
-                       "2xx and the stored object is exactly the sent bytes with ETag = MD5 and the new metadata. In-process and real process over TCP. A wrong digest is the digest of other content, or the right digest with one letter's case, its last data bit or a padding bit changed. Further corruptions: an unimplemented streaming type announced, absent chunk signatures, a trailer under another name. One case in four has a second, valid upload received completely while the first is half received (in-process, one goroutine: the interleaving is exact); layer S sends generated mixes of valid uploads from 4-16 clients at the same time (runtime schedule, exact oracle: every acknowledged upload reads back as its own bytes, none is refused)."),
+                       "2xx and the stored object is exactly the sent bytes with ETag = MD5 and the new metadata. In-process and real process over TCP. A wrong digest is the digest of other content, or the right digest with one letter's case, its last data bit or a padding bit changed. Further corruptions: an unimplemented streaming type announced, absent chunk signatures, a trailer under another name. One case in four has a second, valid upload received completely while the first is half received (in-process, one goroutine: the interleaving is exact); layer S sends generated mixes of valid uploads from 4-16 clients at the same time (runtime schedule, exact oracle: every acknowledged upload reads back as its own bytes, none is refused). An eighth of the PutObject cases aim at a directory object (a key ending in '/', no bytes)."),
         "level_note": "bytes after the terminating chunk are outside the declared payload: accepting them is tolerated as long as the stored object is exactly the payload. Exploration only.",
         "rule": ("case = (config, target, prior, mode, algo, md5?, checksum header?, size, chunks, fragments, corruption, arg, engine). Non-trivial: a "
                  "corruption is present and effective; distinct by the tuple without arg."),
@@ -248,7 +248,7 @@ PROPS = {
                        "is substituted into a valid request of the catalogue, spelled raw in the request line, percent-encoded (upper / lower / "
                        "mixed) or double-encoded, signed for an account authorised for bucket A only (or root). Oracle: the byte-level snapshot of the "
                        "whole sandbox except bucket A's own storage is unchanged, the answer contains no canary from outside A, and no outside "
-                       "canary has been pulled into A's files. Gateways and the test process run as an unprivileged uid. One hostile value is the staged part of another object's multipart upload spelled as a key: no request naming it as an object may read, change or list it. Version ids get the depth of the versions store, the copy source may be a versioned key, a hostile batch key sits alone, first or between harmless ones, and a third generator spells the staging area with leading separators."),
+                       "canary has been pulled into A's files. Gateways and the test process run as an unprivileged uid. One hostile value is the staged part of another object's multipart upload spelled as a key: no request naming it as an object may read, change or list it. Version ids get the depth of the versions store, the copy source may be a versioned key, a hostile batch key sits alone, first or between harmless ones, and a third generator spells the staging area with leading separators. A name that only resolves to an object's file ('obj/' for the file object obj, 'dirobj' for the directory object dirobj/, doubled separators) is not that object's name: its data and its attributes (metadata, tags) must stay as they are and no read under that name may succeed."),
         "level_note": "Hostile depths are weighted by what the parameter is joined to (storage root vs bucket), callers include an admin, and a hostile query parameter may be accompanied by a harmless second occurrence before or after it. escape depth is bounded by the sandbox (11 levels); root naming another bucket by a clean name is authorised for that bucket. Exploration only.",
         "rule": ("case = (config, op, key, caller, parameter, hostile string, spelling, engine). Non-trivial: the hostile value, joined lexically to the directory "
                  "the parameter is relative to, designates a location outside bucket A's storage; distinct by the full tuple."),
@@ -368,7 +368,7 @@ PROPS = {
                        "nesting, explicit directory objects, keys that are prefixes of others) are listed with generated prefix / delimiter "
                        "(incl. multi-character and non-'/') / max-keys / marker; the concatenation of the pages obtained by following the returned "
                        "markers must equal the S3 listing rule's sequence exactly once, each page <= max-keys and ascending, pagination must "
-                       "terminate, bookkeeping names never appear, sizes and ETags are the objects' (layer B). Prefixes include strings that are no paths (//, /a/, x//, ./). Also: names equal to the bookkeeping directory's below the top level, prefixes into the bookkeeping directory with an upload in progress."),
+                       "terminate, bookkeeping names never appear, sizes and ETags are the objects' (layer B). Prefixes include strings that are no paths (//, /a/, x//, ./). Also: names equal to the bookkeeping directory's below the top level, prefixes into the bookkeeping directory with an upload in progress. A quarter of the end-to-end buckets keep versions (enabled, or suspended half way): deleted keys leave delete markers, overwritten ones archived versions - neither is a key, nor does a prefix that holds nothing else exist."),
         "level_note": "model/listing.go is the oracle; where S3 leaves a choice (marker strictly inside a common-prefix group) both sequences are accepted. Preconditions of the posix mapping are generator constraints (file/directory clash; a directory object with children is only a prefix under delimiter listings; plain empty directories are not reachable through the API).",
         "rule": ("cases = (files, explicit directory objects, prefix, delimiter, marker, max-keys[, V1/V2, raw max-keys]). Non-trivial: the listing has "
                  ">= 2 pages, or the delimiter groups keys, or directory-walk order differs from key order; distinct by the full tuple."),
@@ -388,7 +388,7 @@ PROPS = {
                        "trailers) x destination buffer sequences; metamorphic oracle (decoded bytes == payload, terminal io.EOF, independent of "
                        "fragmentation) and negative oracle by field class (xor of any byte, truncation anywhere, hostile size fields, dropped "
                        "or exchanged chunks; no panic, no allocation sized by the input). The encoder is the harness' own, validated against "
-                       "the worked examples of the AWS SigV4 streaming documentation. Layer P decodes two valid streams side by side, their Read calls alternating in a generated pattern (one goroutine, the pattern is the schedule): what one reader yields must not depend on the other."),
+                       "the worked examples of the AWS SigV4 streaming documentation. Layer P decodes two valid streams side by side, their Read calls alternating in a generated pattern (one goroutine, the pattern is the schedule): what one reader yields must not depend on the other. Further negatives: a whole chunk signature, trailer signature or trailing checksum replaced (emptied, one character shorter or longer, the value of another field), and an extra data chunk nobody signed inserted before the final chunk (empty, all-zero or no signature)."),
         "level_note": "reader level (layer A); the end-to-end share (real PUTs with fragmented chunked bodies) lives in C01/C06. Exploration only.",
         "rule": ("cases = (mode, algo, payload length, chunk sizes, fragments, buffers, eof-with-data, negative kind). Non-trivial: valid stream "
                  "with a read boundary inside a chunk header/trailer, or a mutant of a verified field (data, chunk signature, checksum, "
@@ -431,4 +431,4 @@ for _p in ["C%02d" % i for i in range(1, 21)]:
         NOT_APPLICABLE[_p] = "check under construction in this session; not claimed until it is sound and silent on the unchanged tree"
 
 # commits in /repo that add build-tag-guarded hooks
-HOOK_COMMITS = ["35a7129", "a9d736d", "31dd48e"]
+HOOK_COMMITS = ["35a7129", "a9d736d", "31dd48e", "24cde73"]
